@@ -68,6 +68,8 @@ CURATED_TEXT = {
 'choice_elide': "token A B C D; start s; s: x D; x: (A B ^ / A C);",
 'choice_create': "token A B C D; start s; s: (<1 A B 1>ab / A C) D;",
 'choice_nested_rule': "token A B C D; start s; s: (x B / x C) D; x: A y; y: [A];",
+'choice_pratt_alt': "token N P A; start s; s: (e A / N P A); e: e P e | N;",
+'choice_pratt_prefix': "token N P M A B; start s; s: (e A / M N P B); e: e P e | M e | N;",
 'choice_pratt': "token N P A B; start s; s: (e A / e B); e: e P e | N;",
 # ---- Pratt rules
 'calc': "token Num Plus Minus Star Slash Pow LPar RPar Ws; skip Ws; right Pow; start calc; calc: expr; expr: expr Pow expr | (Minus | Plus) expr | expr (Star | Slash) expr | expr (Plus | Minus) expr | Num | LPar expr RPar;",
